@@ -170,6 +170,29 @@ var modelTable = map[string]*model{
 	"sort.SearchInts":  {pure: true},
 	"sort.Search":      {callsFunc: []int{1}},
 	"slices.Sort[...]": {mutElems: []int{0}},
+	// generic helpers of package slices (Go 1.21+), by what they do to their arguments
+	"slices.SortFunc[...]":       {mutElems: []int{0}, callsFunc: []int{1}},
+	"slices.SortStableFunc[...]": {mutElems: []int{0}, callsFunc: []int{1}},
+	"slices.Reverse[...]":        {mutElems: []int{0}},
+	"slices.Contains[...]":       {pure: true},
+	"slices.ContainsFunc[...]":   {callsFunc: []int{1}},
+	"slices.Index[...]":          {pure: true},
+	"slices.IndexFunc[...]":      {callsFunc: []int{1}},
+	"slices.Equal[...]":          {pure: true},
+	"slices.EqualFunc[...]":      {callsFunc: []int{2}},
+	"slices.Compare[...]":        {pure: true},
+	"slices.Max[...]":            {retDeep: []int{0}},
+	"slices.Min[...]":            {retDeep: []int{0}},
+	"slices.BinarySearch[...]":   {pure: true},
+	"slices.IsSorted[...]":       {pure: true},
+	"slices.Clone[...]":          {retFresh: true, freshHolds: []int{0}},
+	"slices.Compact[...]":        {mutElems: []int{0}, retAlias: []int{0}},
+	"slices.CompactFunc[...]":    {mutElems: []int{0}, retAlias: []int{0}, callsFunc: []int{1}},
+	"slices.Delete[...]":         {mutElems: []int{0}, retAlias: []int{0}},
+	"slices.Insert[...]":         {mutElems: []int{0}, retAlias: []int{0}, retFresh: true},
+	"slices.Grow[...]":           {retAlias: []int{0}, retFresh: true},
+	"slices.Clip[...]":           {retAlias: []int{0}},
+	"bytes.Clone":                {retFresh: true},
 
 	// --- fmt / errors / misc: formatting calls String/Error/Format of operands; those
 	// methods of module types are C20 roots in their own right (modular argument)
@@ -298,7 +321,14 @@ func lookupModel(f *ssa.Function) *model {
 		return pureFresh
 	}
 	if o := f.Origin(); o != nil {
-		if m, ok := modelTable[funcKey(o)+"[...]"]; ok {
+		k := funcKey(o) + "[...]"
+		if k == "slices.Clone[...]" && f.Signature.Params().Len() == 1 {
+			// a copy of pointer-free elements shares nothing with its argument
+			if st, ok := f.Signature.Params().At(0).Type().Underlying().(*types.Slice); ok && !hasPtr(st.Elem()) {
+				return &model{retFresh: true}
+			}
+		}
+		if m, ok := modelTable[k]; ok {
 			return m
 		}
 	}
